@@ -428,16 +428,26 @@ PROPS = {
     'C20': dict(
         title='The drawing layout is a faithful planar embedding of the diagram',
         level='exploration',
-        vc=[], sym=[], rtc='C20',
-        level_text='Bounded stand-in: for every diagram with <= 3 (thorough 4) boxes over 14 box kinds of arity 0..3 -> 0..4 '
+        vc=['drawing.diagram2nx.<locals>.make_space'], sym=[], rtc='C20',
+        level_text='Discharged (VC, linear real arithmetic, scans of any length, boxes of any arity incl. states, effects and '
+                   'scalars, every offset at which the box fits): the horizontal padding step make_space, as a closure over the '
+                   'position dict (two functions on nodes with functional update; floats read as reals). Its two bulk loops over '
+                   'pos.items() carry the for-each invariant "keys visited so far are shifted iff they were on the far side of '
+                   'limit, the others are untouched" (keys distinct, insertion order). Proved: the wire left (right) of the box '
+                   'ends strictly left (right) of the box and of its outermost output wire; the open wires stay in strictly '
+                   'increasing order; nodes with equal x keep equal x (vertical wires stay vertical); no y changes; a box with '
+                   'inputs stays centred over its first and last input. Bounded stand-in for the rest (add_box, the main loop, '
+                   'the graph census, both back-ends, diagramize): for every diagram with <= 3 (thorough 4) boxes over 14 box kinds of arity 0..3 -> 0..4 '
                    '(scalars, states, effects, a 4-wire state) on 0..3 input wires, the graph and coordinates of diagram2nx are '
                    'replayed against the diagram\'s own scan: exactly one node per input, output, box and port with a position; '
                    'the edge set is the wiring; open wires strictly increasing in x before and after every box; wires into ports '
                    'and outputs vertical (also in the final layout, after later shifts); every edge downwards; every box extent '
                    'strictly between its neighbouring wires. A sample is rendered on both back-ends (Agg, TikZ). Five diagramize '
                    'bodies (planar, wires used out of left-to-right order) against the expected wiring.',
-        level_note='No obligation proved: the linear-real-arithmetic invariants of DESIGN 6/C20 are not discharged in this build. '
-                   'matplotlib / TikZ emission and networkx are external.',
+        level_note='Category exploration: of the linear-real-arithmetic invariants of DESIGN 6/C20 only space.post (make_space) is '
+                   'discharged; the layout invariant of the main loop and add_box are not. Precondition of the VC: the open '
+                   'wires have positions and increase strictly in x (stated for every pair i < j; the postcondition re-establishes '
+                   'the adjacent form). matplotlib / TikZ emission and networkx are external.',
         technique='bounded run-time contracts replaying the layout against the diagram wiring'),
     'C05': dict(
         title='Interchange moves exactly one box past a disconnected neighbour',
@@ -477,4 +487,4 @@ FIX_COMMITS = ['da35a0f fix: Y gate', 'e208434 fix: Ry', '1d0097a fix: Controlle
 def claimed():
     return sorted(PROPS)
 
-CONTRACT_MODULES = ['core', 'rewriting', 'lemmas', 'eqhash', 'functors', 'grammar', 'cartesian', 'structural', 'types', 'daggers', 'snakes']
+CONTRACT_MODULES = ['core', 'rewriting', 'lemmas', 'eqhash', 'functors', 'grammar', 'cartesian', 'structural', 'types', 'daggers', 'snakes', 'layout']
